@@ -144,6 +144,8 @@ def gen_ohlcv(rng, n, regime=None):
             vol = 100000.0
         if rng.random() < 0.03:
             vol = 0.0
+        if v and rng.random() < (0.35 if regime in ('ties', 'plateau') else 0.1):
+            vol = v[-1]            # equal consecutive volumes (thin / halted trading): ties in volume comparisons
         v.append(vol)
         prev = c
     return {'o': o, 'h': h, 'l': l, 'c': close, 'v': v}, regime
